@@ -68,7 +68,10 @@ func (c *ShipConnection) handshakeAccessMethods_Request(message []byte) {
 		if len(c.remoteShipID) == 0 {
 			c.remoteShipID = *accessMethods.AccessMethods.Id
 
-			c.infoProvider.ReportServiceShipID(c.remoteSKI, c.remoteShipID)
+			// not for a connection that was closed meanwhile
+			if !c.isCloseReported() {
+				c.infoProvider.ReportServiceShipID(c.remoteSKI, c.remoteShipID)
+			}
 		}
 	} else {
 		c.endHandshakeWithError(fmt.Errorf("access methods: invalid response: %s", dataString))
